@@ -478,6 +478,41 @@ func runC07() {
 				distinct["mapenv|"+src] = true
 			}
 		}
+		// one program, one VM, environment values whose DYNAMIC KINDS change from run to run (operands of interface{} type:
+		// untyped compile and map environments): nothing a run learnt about the kinds it met may steer the next run
+		{
+			kinds := []map[string]interface{}{
+				{"X": 1, "Y": 1, "Xs": []interface{}{1, 2}}, {"X": "a", "Y": "a", "Xs": []interface{}{"a", "b"}}, {"X": 2.5, "Y": 1, "Xs": []interface{}{1.5, int64(2)}},
+				{"X": int64(1), "Y": 1, "Xs": []interface{}{uint8(1), "b"}}, {"X": 1, "Y": 2, "Xs": []interface{}{1, 2}}, {"X": nil, "Y": 1, "Xs": []interface{}{nil, 1}},
+				{"X": true, "Y": false, "Xs": []interface{}{true}}, {"X": 7, "Y": 7, "Xs": []interface{}{7}}}
+			for _, src := range []string{"X == Y", "X != Y", "X == 1", "X + Y", "X < Y", "X in Xs", "filter(Xs, {# == X})", "map(Xs, {# == 1})", "X == Y ? X : Y", "-X", "X * 2", "[X == Y, X != 1]",
+				"count(Xs, {# == Y}) == 1", "X ?: Y", "len(Xs) == 2 and X == Y", "X .. Y", "X % 2 == 1", "X matches \"a\"", "X contains Y"} {
+				for _, typed := range []bool{false, true} {
+					var ops []expr.Option
+					if typed {
+						ops = append(ops, expr.Env(kinds[0]))
+					}
+					prog, err := expr.Compile(src, ops...)
+					if err != nil {
+						continue
+					}
+					reused := &vm.VM{}
+					for k := 0; k < 2*len(kinds); k++ {
+						e := kinds[(k*3)%len(kinds)]
+						out1, err1 := reused.Run(prog, e)
+						out2, err2 := (&vm.VM{}).Run(prog, e)
+						rep.Evaluations += 2
+						rep.hist("one program, dynamic kinds changing between runs")
+						if fmt.Sprintf("%#v", out1) != fmt.Sprintf("%#v", out2) || fmt.Sprint(err1) != fmt.Sprint(err2) {
+							rep.fail(Failure{Key: "C07-reuse-differs", What: "a run on a reused VM differs from the run on a fresh VM (same program, operands of another dynamic kind than in the earlier runs)",
+								Input: map[string]interface{}{"src": src, "typed": typed, "run": k + 1, "env": fmt.Sprintf("%#v", e)}, Want: fmt.Sprintf("%#v / %v", out2, err2), Got: fmt.Sprintf("%#v / %v", out1, err1)})
+							break
+						}
+					}
+					distinct["kinds|"+src] = true
+				}
+			}
+		}
 		// the same program on different struct environments in turn
 		for _, src := range []string{"Add(I, 1)", "Twice(I)", "St.Get() + P.Get()", "Fast(I, S)", "map(AI, {Inc(#)})"} {
 			tree, prog, _, err := pipeline(src, modeTyped.options(envs[0]))
